@@ -115,7 +115,8 @@ def run(tier, seed):
                 if tier == "quick" and (oi + ti) % 3:
                     continue
                 jobs.append((exe, wd, gid, src, opts, typ, "%s_o%d" % (gid, oi)))
-        jobs.append((exe, wd, gid, src, [], "hex", "other_name_%s" % gid))
+        for typ in TYPES:
+            jobs.append((exe, wd, gid, src, [], typ, "a_much_longer_and_different_output_name_%s" % gid))
     for gid in pick:
         with open(os.path.join(wd, "%s.asm" % gid), "w") as fh:
             fh.write(refs[gid][0])
